@@ -53,7 +53,8 @@ RULE = ('one-channel scripts of chunks/calls/completions: byte streams built fro
         'request ids.  two-channel scripts: two real RpcChannels back to back over a pipe pair, the server lacking '
         'methods and answering when told.  multi-channel scripts: 2-4 independent real channels alive in one process, '
         'their scripts interleaved op by op (partial frames of one connection with reads of the others in between).  '
-        'SetService in mid-history (TestService / an OlaServerService mock / none) with requests for the methods of both services '
+        'outgoing messages (calls and replies) whose serialized size is swept over 1 MB-70 .. 1 MB+8 (quick: -6 .. +3) '
+        'with a draining reader on the peer side.  SetService in mid-history (TestService / an OlaServerService mock / none) with requests for the methods of both services '
         'before and after.  outgoing sizes: calls, service replies and failure texts whose payload length is swept byte by byte over '
         '880-1160, 2020-2070, 4070-4110 (thorough: also 0-40, 100-300, around 8 kB and 64 kB), each followed by ordinary traffic.  '
         'server scripts: a real RpcServer + SelectServer with 1-4 clients on injected socketpairs, requests in pieces, '
@@ -591,6 +592,32 @@ def gen_outsize(rng, what, n):
         s.call('e'); s.response(s.ids[-1])
     return s.tokens(rng.choice(['whole', 'random', 'hdr']))
 
+def gen_bigout(rng, what, size):
+    """an OUTGOING message whose serialized RpcMessage is exactly `size` bytes (around the 1 MB limit the
+    receiver applies): a call, or a service reply made longer than its request; then ordinary traffic"""
+    s = Script(rng, 'bigout')
+    s.flags.append('B')
+    if what == 'call':
+        over = len(enc_msg(1, 0, b'Echo', echo_req(b'x' * 1000000))) - 1000000
+        n = size - over
+        assert len(enc_msg(1, 0, b'Echo', echo_req(b'x' * n))) == size
+        s.call('e%d' % n)
+        s.response(0)
+        s.call('e'); s.response(1)
+    else:
+        mid = 5
+        over = len(enc_msg(2, mid, None, echo_req(b'x' * 1000000))) - 1000000
+        n = size - over                      # length of the reply's data
+        data = b'q' * 100
+        rq = echo_req(data, (1 << 50) + (n - 100))
+        reply = echo_req(data + b'y' * (n - 100))
+        assert len(enc_msg(2, mid, None, reply)) == size
+        s.Q[hx(rq)] = hx(reply)
+        s.frame(1, mid, b'Echo', rq)
+        s.request()
+        s.call('e'); s.response(s.ids[-1])
+    return s.tokens('whole')
+
 def gen_multi(rng):
     """several independent channels alive in one process, their scripts interleaved op by op (so a frame of
     one connection is split over reads with whole or partial frames of the others in between)"""
@@ -693,6 +720,9 @@ def gen_cases(rng, tier):
              'calls', 'calls', 'wrap', 'dupid', 'jam', 'async', 'async', 'bigmask', 'srvfail', 'reuse', 'types', 'setsvc', 'setsvc']
     for c in gen_random_bodies(rng, 300 if tier == 'quick' else 20000):
         yield c
+    for sz in (range(MAXB - 6, MAXB + 4) if tier == 'quick' else range(MAXB - 70, MAXB + 9)):
+        for what in ('call', 'reply'):
+            yield gen_bigout(rng, what, sz)
     for sz in out_sizes(tier):
         for what in ('call', 'reply', 'failure'):
             yield gen_outsize(rng, what, sz)
